@@ -15,6 +15,18 @@ pub proof fn axiom_hex_roundtrip(b: Seq<u8>)
     ensures hex_decode(hex_encode(b)) == Some(b), hex_encode(b).len() == 2 * b.len(),
 { admit(); }
 
+/// hex::encode emits only 0-9 and a-f
+pub proof fn axiom_hex_alphabet(b: Seq<u8>)
+    ensures forall|i: int| 0 <= i < hex_encode(b).len() ==> {
+        let c = #[trigger] hex_encode(b)[i];
+        ('0' <= c && c <= '9') || ('a' <= c && c <= 'f') },
+{ admit(); }
+/// Display for u64 emits only decimal digits, and u64::from_str reads it back
+pub proof fn axiom_dec_str_roundtrip(n: u64)
+    ensures dec_u64(dec_str(n as nat)) == Some(n),
+        forall|i: int| 0 <= i < dec_str(n as nat).len() ==> { let c = #[trigger] dec_str(n as nat)[i]; '0' <= c && c <= '9' },
+{ admit(); }
+
 /// things that can be hashed / viewed as bytes (`impl AsRef<[u8]>` arguments of sha2 / hex)
 pub trait VxBytes {
     spec fn vx_bytes(&self) -> Seq<u8>;
@@ -27,11 +39,13 @@ impl VxBytes for str { open spec fn vx_bytes(&self) -> Seq<u8> { utf8(self@) } }
 impl VxBytes for ShaOutput { open spec fn vx_bytes(&self) -> Seq<u8> { self.bytes@ } }
 impl<T: VxBytes + ?Sized> VxBytes for &T { open spec fn vx_bytes(&self) -> Seq<u8> { (**self).vx_bytes() } }
 
-/// digest::Output<Sha256> (a 32-byte GenericArray that derefs to a byte slice)
-pub struct ShaOutput { pub bytes: Vec<u8> }
+/// digest::Output<Sha256> (a 32-byte GenericArray: Copy, derefs to its bytes)
+#[derive(Clone, Copy)]
+pub struct ShaOutput { pub bytes: [u8; 32] }
 impl core::ops::Deref for ShaOutput {
     type Target = Vec<u8>;
-    fn deref(&self) -> (r: &Vec<u8>) ensures *r == self.bytes { &self.bytes }
+    #[verifier::external_body]
+    fn deref(&self) -> (r: &Vec<u8>) ensures r@ == self.bytes@ { unimplemented!() }
 }
 #[verifier::external_body]
 pub struct Sha256 { _p: u8 }
